@@ -173,6 +173,12 @@ def analyse_main(ur, res, meta, text):
             f = vrun.fn_of_line(meta, ln)
             if f:
                 break
+        if f is None:
+            # e.g. a trait-level ensures: the primary span is the clause in the prelude, the function is a secondary span
+            for ln in sorted(alll):
+                f = vrun.fn_of_line(meta, ln)
+                if f:
+                    break
         labels = []
         for ln in sorted(alll):
             labels.extend(meta['labels'].get(str(ln), []))
